@@ -36,12 +36,25 @@ func (c errorChan) getError() error {
 type coalesceOperator struct {
 	once   sync.Once
 	series []labels.Labels
+	// unique enables merging of series with the same label set, see NewUniqueCoalesce.
+	unique bool
+	dedup  *model.SeriesDeduplicator
 
 	pool          *model.VectorPool
 	mu            sync.Mutex
 	wg            sync.WaitGroup
 	operators     []model.VectorOperator
 	sampleOffsets []uint64
+}
+
+// NewUniqueCoalesce is like NewCoalesce, but merges series of different
+// inputs which have the same label set and fails the query if both have
+// samples. It is used for the shards of a function over a range vector,
+// which drops the metric name.
+func NewUniqueCoalesce(pool *model.VectorPool, operators ...model.VectorOperator) model.VectorOperator {
+	c := NewCoalesce(pool, operators...).(*coalesceOperator)
+	c.unique = true
+	return c
 }
 
 func NewCoalesce(pool *model.VectorPool, operators ...model.VectorOperator) model.VectorOperator {
@@ -142,6 +155,12 @@ func (c *coalesceOperator) Next(ctx context.Context) ([]model.StepVector, error)
 		return nil, nil
 	}
 
+	for i := range out {
+		if err := c.dedup.Apply(out[i].SampleIDs); err != nil {
+			return nil, err
+		}
+	}
+
 	return out, nil
 }
 
@@ -187,6 +206,9 @@ func (c *coalesceOperator) loadSeries(ctx context.Context) error {
 		offset += uint64(len(series))
 	}
 
+	if c.unique {
+		c.dedup, c.series = model.NewSeriesDeduplicator(c.series, true)
+	}
 	c.pool.SetStepSize(len(c.series))
 	return nil
 }
